@@ -1777,3 +1777,77 @@ def _realify(t):
     if t[0] == "sym":
         return ("real", t[1])
     return tuple(_realify(x) if isinstance(x, tuple) else x for x in t)
+
+
+# ======================================================================================= C08 covariance / correlation (matrix form)
+
+def rule_c08_structure(ctx, prog, rule="R19"):
+    cov = prog.method("CorrelationExt", "cov")
+    tb = prog.tracked(cov)
+    sv = success_values(tb)
+    ok1 = len(sv) == 1
+    ctx.ob("R13", "cov/single-success-value", ok1, cov.where(), "one success value" if ok1 else "%d success values" % len(sv),
+           what="covariance computed in more than one way")
+    AX1 = ("agg", "ndarray::Axis", "Axis", (("const", "usize", 1),), ("0",))
+
+    def is_axis1(e):
+        e = ds(e)
+        return isinstance(e, tuple) and e[0] == "agg" and e[1] == "ndarray::Axis" and ds(e[3][0]) == ("const", "usize", 1)
+
+    def nobs(e):
+        e = unwrap_try(e)
+        for _ in range(3):
+            if isinstance(e, tuple) and e[0] == "call" and e[1] in ("from_usize", "unwrap", "expect") and e[3]:
+                e = unwrap_try(e[3][0])
+        return isinstance(e, tuple) and e[0] == "call" and e[1] == "len_of" and ds(e[3][0])[:2] == ("param", 1) and is_axis1(e[3][1])
+    if ok1:
+        v = ds(sv[0][1])
+        centred = gram = denom = False
+        detail = "success value `%s`" % fmt(v)[:160]
+        if isinstance(v, tuple) and v[0] == "call" and v[1] in ("mapv_into", "mapv", "map") and len(v[3]) == 2:
+            m = ds(v[3][0])
+            cb, ups = closure_of(prog, v[3][1])
+            if cb is not None:
+                ret, _ = closure_terms(prog, cb, {2: ("sym", "x")}, upvar_leaf=lambda e: ("sym", "^dof"))
+                dofe = ds(ups[0]) if ups else None
+                denom = ret == ("div", ("sym", "x"), ("sym", "^dof")) and isinstance(dofe, tuple) and dofe[0] == "call" and dofe[1] == "sub" \
+                    and nobs(dofe[3][0]) and ds(dofe[3][1])[:2] == ("param", 2)
+            if isinstance(m, tuple) and m[0] == "call" and m[1] == "dot" and len(m[3]) == 2:
+                d1, d2 = ds(m[3][0]), ds(m[3][1])
+                if isinstance(d2, tuple) and d2[0] == "call" and d2[1] in ("t", "reversed_axes") and ds(d2[3][0]) == d1:
+                    gram = True
+                    if isinstance(d1, tuple) and d1[0] == "call" and d1[1] == "sub" and ds(d1[3][0])[:2] == ("param", 1):
+                        mean = ds(d1[3][1])
+                        if isinstance(mean, tuple) and mean[0] == "call" and mean[1] == "insert_axis" and is_axis1(mean[3][1]):
+                            mm = unwrap_try(mean[3][0])
+                            centred = isinstance(mm, tuple) and mm[0] == "call" and mm[1] == "mean_axis" and ds(mm[3][0])[:2] == ("param", 1) and is_axis1(mm[3][1])
+        ctx.ob(rule, "cov/centred", centred, cov.where(), "D = self − mean_axis(self, Axis(1)) broadcast along the observation axis" if centred else
+               "the matrix that is multiplied is not `self − mean over observations`: " + detail, what="covariance not centred on the variable means")
+        ctx.ob(rule, "cov/gram", gram, cov.where(), "D·Dᵀ with the same D on both sides (entry (i,j) = Σ_k D_ik·D_jk; symmetric by construction)" if gram else
+               "not `D.dot(&D.t())` of one centred matrix: " + detail, what="covariance is not the Gram matrix of the centred rows")
+        ctx.ob(rule, "cov/denominator", denom, cov.where(), "every entry divided by (n_observations − ddof), n_observations = len_of(Axis(1))" if denom else
+               "entries are not divided by (len_of(self, Axis(1)) − ddof)", what="covariance denominator is not n − ddof")
+    pc = prog.method("CorrelationExt", "pearson_correlation")
+    tp = prog.tracked(pc)
+    sv = success_values(tp)
+    ok = len(sv) == 1
+    detail = "%d success values" % len(sv)
+    if ok:
+        v = ds(sv[0][1])
+        ok = False
+        detail = "success value `%s`" % fmt(v)[:160]
+        if isinstance(v, tuple) and v[0] == "call" and v[1] == "div" and len(v[3]) == 2:
+            c = unwrap_try(v[3][0])
+            s = ds(v[3][1])
+            cov_ok = isinstance(c, tuple) and c[0] == "call" and c[1] == "cov" and ds(c[3][0])[:2] == ("param", 1)
+            dd = ds(c[3][1]) if cov_ok else None
+            sd_ok = False
+            if isinstance(s, tuple) and s[0] == "call" and s[1] == "dot":
+                s1, s2 = ds(s[3][0]), ds(s[3][1])
+                if isinstance(s2, tuple) and s2[0] == "call" and s2[1] == "t" and ds(s2[3][0]) == s1 and s1[0] == "call" and s1[1] == "insert_axis" and is_axis1(s1[3][1]):
+                    sa = ds(s1[3][0])
+                    sd_ok = sa[0] == "call" and sa[1] == "std_axis" and ds(sa[3][0])[:2] == ("param", 1) and is_axis1(sa[3][1]) and ds(sa[3][2]) == dd
+            ok = cov_ok and sd_ok
+            detail = "cov(ddof₀) / (σ·σᵀ) with σ = std_axis(self, Axis(1), ddof₀) – the same ddof₀ value in both" if ok else \
+                "cov operand ok=%s, σσᵀ with the same ddof ok=%s" % (cov_ok, sd_ok)
+    ctx.ob(rule, "pearson_correlation/formula", ok, pc.where(), detail, what="correlation is not cov / (σ_i σ_j) with one ddof")
